@@ -475,10 +475,10 @@ def check(run):
     run.rule("R07.5", "Tensor.backward (tracking on) reaches self.clear_graph() on every normal exit", floor=2)
     run.rule("R07.7", "state handed to the internal UnView/ApplyMask ops captures placeholders/arrays only, never a public tensor", floor=2)
     run.rule("R07.6", "gradient-nulling sites: non-view ops, the backward traversal, in-place targets, null_grad", floor=7)
-    r07_1(run)
-    r07_2(run)
-    r07_3(run)
-    r07_4(run)
-    r07_5(run)
-    r07_6(run)
-    r07_7(run)
+    run.do(r07_1)
+    run.do(r07_2)
+    run.do(r07_3)
+    run.do(r07_4)
+    run.do(r07_5)
+    run.do(r07_6)
+    run.do(r07_7)
